@@ -458,6 +458,15 @@ theorem ms_encode_packet_structure_skel (n : Nat) (hn : 1 ≤ n) (fs : Nat) (hfs
   ms_encode_packet_structure n hn fs fsz.toNat hfs vbr bitrate maxData _
     (MsEncode.skelEnc_contract sts fuzz fsz ors frs fs hfsAll hok) (MsEncode.skelEnc_total sts fuzz fsz ors frs)
 
+/-- `SkelOk` is inhabited — constant per-stream state (48 kHz mono VBR at 500 b/s, where every 20 ms call takes the
+    skeleton's low-budget path so that `ok` holds for ALL `curr_max`), the inner oracle a function of
+    `curr_max` — and with it the two-stream call succeeds, so the conclusion is not vacuous either -/
+example : MsEncode.SkelOk (fun _ => MsEncode.lowSt) false 960 (fun _ cm => MsEncode.lowOr cm)
+    (fun _ cm => if cm ≤ 0 then [] else [[]]) := MsEncode.lowSkelOk
+example : ∃ out, MsEncode.encodeNative 2 48000 960 true none 100
+    (MsEncode.skelEnc (fun _ => MsEncode.lowSt) false 960 (fun _ cm => MsEncode.lowOr cm)
+      (fun _ cm => if cm ≤ 0 then [] else [[]])) = .ok out := MsEncode.lowExample_ok
+
 /-- the skeleton really returns multi-frame padded packets inside these hypotheses (the state and oracle of
     C02's example: 64 kb/s CBR, 60 ms, 48 kHz stereo → three CELT frames of 158 bytes, header `FF 43 03`) -/
 def exSkelSt : EncSkel.St :=
@@ -514,6 +523,13 @@ theorem matrix_short_saturates (mx : MappingMatrix) (input : List (Int × Int)) 
   split at h
   · cases h
   · exact outShortLoop_range mx input inputRow inputRows outputRows frameSize 0 output out' hin h
+
+/-- a saturating row: accumulator 30000 plus 1.0 (→ 32767) through a cell of 32767/32768 would be 62766 and is
+    stored as 32767; and the negative side -/
+example : multiplyChannelOutShort ⟨1, 1, 0, [32767]⟩ [(1, 0)] 0 1 [30000] 1 1 = .ok [32767] ∧
+    multiplyChannelOutShort ⟨2, 1, 0, [-32768, 16384]⟩ [(1, 0)] 0 1 [-30000, 5] 2 1 = .ok [-32768, 16389] := by decide
+example : ∀ x ∈ [(30000 : Int)], InInt16 x := by
+  intro x hx; simp only [List.mem_singleton] at hx; subst hx; exact ⟨by decide, by decide⟩
 
 /-- **What the 24-bit output path computes** (`mapping_matrix_multiply_channel_out_int24`; the model
     `Projection.outInt24Rows` applies `step24` per cell, and the `mixout24` correspondence suite ties it to
